@@ -1,0 +1,19 @@
+//go:build verif
+
+// Contracts for package proj, checked by /verif/engine (govc). Comment-only.
+
+package proj
+
+//@ -- A Transformer, as far as its callers are concerned (C10): a total,
+//@ -- deterministic function of the func value and its two arguments which does
+//@ -- not touch the caller's memory. Implementations built by NewTransform are
+//@ -- checked against this separately.
+//@ spec TX(t Transformer, x float64, y float64) float64
+//@ spec TY(t Transformer, x float64, y float64) float64
+//@ spec TE(t Transformer, x float64, y float64) error
+
+//@ functype Transformer
+//@   opt writes=none
+//@   requires [nonnil] self != nil
+//@   ensures [function] biteq(x, TX(self, X, Y)) && biteq(y, TY(self, X, Y)) && err == TE(self, X, Y)
+//@   modifies nothing
